@@ -139,6 +139,11 @@ func runC03(t *core.Tape, st *core.Stats) *core.Violation {
 				id = world.DrawID(t)
 			}
 
+			if t.Bool(1, 12) {
+				id = "" // a resource that has no ID yet
+				st.Inc("probe:resource-without-id")
+			}
+
 			rs = world.DrawResSpec(t, ts, id)
 			what = "new"
 		}
